@@ -67,9 +67,19 @@ impl Wire {
 #[derive(Clone, Debug)]
 pub enum Obs {
 	/// node `from` queued a message for `to`
-	Msg { from: usize, to: usize, kind: &'static str, chan: usize, detail: String },
+	Msg { from: usize, to: usize, kind: &'static str, chan: usize, detail: String, htlc_id: u64, amt: u64, pending: Vec<u64> },
+	/// the harness delivered the oldest queued message from -> to; `errors` = protocol errors / closures it caused
+	Delivered { from: usize, to: usize, kind: &'static str, chan: usize, errors: usize },
+	/// node built (signed) a new counterparty commitment on chan: AwaitingRemoteRevoke went false -> true
+	Built { node: usize, chan: usize },
+	/// the channel generated update `id` (its state moved) but has not handed it to chain::Watch yet
+	Generated { node: usize, chan: usize, id: u64 },
+	/// value_to_self_msat of node's side of chan (hook), sampled by the harness
+	Balance { node: usize, chan: usize, value_to_self_msat: u64 },
 	/// a ChannelMonitorUpdate reached node's chain::Watch: (chan, update_id, step kinds, status returned)
-	Update { node: usize, chan: usize, id: u64, kinds: Vec<&'static str>, in_progress: bool },
+	Update { node: usize, chan: usize, id: u64, kinds: Vec<&'static str>, in_progress: bool,
+		/// the counterparty commitment(s) this update carries: (to_broadcaster_sat, to_countersignatory_sat, feerate, nondust (offered, amount_msat))
+		cp_commit: Option<(u64, u64, u32, Vec<(bool, u64)>)> },
 	/// the harness reported update `id` complete
 	Completed { node: usize, chan: usize, id: u64 },
 	Event { node: usize, text: String },
@@ -88,6 +98,8 @@ pub struct Net {
 	pub chans: Vec<(usize, usize, ChannelId, u64)>, // (a, b, channel id, scid)
 	pub trace: Vec<Obs>,
 	seen_updates: BTreeMap<(usize, ChannelId), usize>,
+	max_update_id: BTreeMap<(usize, usize), u64>,
+	awaiting: BTreeMap<(usize, usize), bool>,
 	seen_bcast: Vec<usize>,
 	pub in_progress: Vec<bool>,
 	pub pays: Vec<PendingPay>,
@@ -109,7 +121,7 @@ impl Net {
 		let ids: Vec<PublicKey> = nodes.iter().map(|x| x.node.get_our_node_id()).collect();
 		let mut connected = BTreeSet::new();
 		for i in 0..n { for j in 0..n { if i != j { connected.insert((i, j)); } } }
-		Net { nodes, ids, q: BTreeMap::new(), connected, chans: vec![], trace: vec![], seen_updates: BTreeMap::new(),
+		Net { nodes, ids, q: BTreeMap::new(), connected, chans: vec![], trace: vec![], seen_updates: BTreeMap::new(), max_update_id: BTreeMap::new(), awaiting: BTreeMap::new(),
 			seen_bcast: vec![0; n], in_progress: vec![false; n], pays: vec![], claimable: vec![vec![]; n], closed: vec![], events: (0..n).map(|_| vec![]).collect(), persisters }
 	}
 
@@ -144,8 +156,10 @@ impl Net {
 	pub fn pump(&mut self, i: usize) {
 		// monitor updates first (they precede the messages they gate)
 		self.collect_updates(i);
+		self.note_generated(i);
 		let evs = self.nodes[i].node.get_and_clear_pending_msg_events();
 		self.collect_updates(i);
+		self.note_generated(i);
 		for ev in evs {
 			let (to_pk, wires): (PublicKey, Vec<Wire>) = match ev {
 				MessageSendEvent::UpdateHTLCs { node_id, updates, .. } => {
@@ -195,7 +209,9 @@ impl Net {
 					Wire::Warning(m) => format!("{}", m.data.chars().take(80).collect::<String>()),
 					_ => String::new(),
 				};
-				self.trace.push(Obs::Msg { from: i, to: j, kind: w.kind(), chan, detail });
+				let (htlc_id, amt) = match &w { Wire::Add(m) => (m.htlc_id, m.amount_msat), Wire::Fulfill(m) => (m.htlc_id, 0), Wire::Fail(m) => (m.htlc_id, 0), Wire::Malformed(m) => (m.htlc_id, 0), _ => (0, 0) };
+				let pending = if chan != usize::MAX { self.pending_updates(i, chan) } else { vec![] };
+				self.trace.push(Obs::Msg { from: i, to: j, kind: w.kind(), chan, detail, htlc_id, amt, pending });
 				if self.connected.contains(&(i, j)) { self.q.entry((i, j)).or_default().push_back(w); }
 			}
 		}
@@ -221,9 +237,33 @@ impl Net {
 		};
 		for (cid, u) in new {
 			*self.seen_updates.entry((i, cid)).or_insert(0) += 1;
+			let ci = self.chan_idx(&cid);
+			let e = self.max_update_id.entry((i, ci)).or_insert(0);
+			if u.update_id > *e { *e = u.update_id; }
 			let pending = self.nodes[i].chain_monitor.chain_monitor.list_pending_monitor_updates();
 			let in_progress = pending.get(&cid).map(|v| v.contains(&u.update_id)).unwrap_or(false);
-			self.trace.push(Obs::Update { node: i, chan: self.chan_idx(&cid), id: u.update_id, kinds: vh::monitor_update_step_kinds(&u), in_progress });
+			let cp_commit = self.nodes[i].chain_monitor.chain_monitor.get_monitor(cid).ok().and_then(|m| {
+				let txs = m.counterparty_commitment_txs_from_update(&u);
+				txs.first().map(|t| (t.to_broadcaster_value_sat(), t.to_countersignatory_value_sat(), t.negotiated_feerate_per_kw(), t.nondust_htlcs().iter().map(|h| (h.offered, h.amount_msat)).collect()))
+			});
+			self.trace.push(Obs::Update { node: i, chan: self.chan_idx(&cid), id: u.update_id, kinds: vh::monitor_update_step_kinds(&u), in_progress, cp_commit });
+		}
+	}
+
+	/// note updates the channel has generated but not yet released to chain::Watch (blocked / held)
+	fn note_generated(&mut self, i: usize) {
+		for ci in 0..self.chans.len() {
+			let (a, b, cid, _) = self.chans[ci];
+			if i != a && i != b { continue; }
+			let peer = if i == a { b } else { a };
+			if let Some(latest) = vh::channel_latest_monitor_update_id(self.nodes[i].node, &self.ids[peer], &cid) {
+				let e = self.max_update_id.entry((i, ci)).or_insert(latest);
+				while *e < latest { *e += 1; self.trace.push(Obs::Generated { node: i, chan: ci, id: *e }); }
+			}
+			if let Some(aw) = vh::channel_awaiting_remote_revoke(self.nodes[i].node, &self.ids[peer], &cid) {
+				let prev = self.awaiting.insert((i, ci), aw).unwrap_or(false);
+				if aw && !prev { self.trace.push(Obs::Built { node: i, chan: ci }); }
+			}
 		}
 	}
 
@@ -235,6 +275,9 @@ impl Net {
 		let from = self.ids[i];
 		let n = &self.nodes[j].node;
 		let kind = w.kind();
+		let chan = w.channel_id().map(|c| self.chan_idx(&c)).unwrap_or(usize::MAX);
+		let errs_before = self.trace.iter().filter(|o| matches!(o, Obs::ProtoError { .. })).count() + self.closed.len();
+		let pos_before = self.trace.len();
 		match w {
 			Wire::Add(m) => n.handle_update_add_htlc(from, &m),
 			Wire::Fulfill(m) => n.handle_update_fulfill_htlc(from, m),
@@ -242,7 +285,7 @@ impl Net {
 			Wire::Malformed(m) => n.handle_update_fail_malformed_htlc(from, &m),
 			Wire::Fee(m) => n.handle_update_fee(from, &m),
 			Wire::Commit(m) => n.handle_commitment_signed_batch_test(from, &m),
-			Wire::Raa(m) => n.handle_revoke_and_ack(from, &m),
+			Wire::Raa(m) => { if chan != usize::MAX { self.awaiting.insert((j, chan), false); } n.handle_revoke_and_ack(from, &m) },
 			Wire::Reestablish(m) => n.handle_channel_reestablish(from, &m),
 			Wire::Ready(m) => n.handle_channel_ready(from, &m),
 			Wire::ChanUpdate(m) => n.handle_channel_update(from, &m),
@@ -254,6 +297,9 @@ impl Net {
 		}
 		self.pump(j);
 		self.pump(i);
+		let errs_after = self.trace.iter().filter(|o| matches!(o, Obs::ProtoError { .. })).count() + self.closed.len();
+		// record the delivery *before* the effects it caused (they were appended by the pumps above)
+		self.trace.insert(pos_before, Obs::Delivered { from: i, to: j, kind, chan, errors: errs_after - errs_before });
 		Some(kind)
 	}
 
@@ -363,6 +409,13 @@ impl Net {
 		}
 	}
 
+	pub fn sample_balances(&mut self, c: usize) {
+		let (a, b, cid, _) = self.chans[c];
+		for (x, y) in [(a, b), (b, a)] {
+			if let Some(v) = vh::channel_value_to_self_msat(self.nodes[x].node, &self.ids[y], &cid) { self.trace.push(Obs::Balance { node: x, chan: c, value_to_self_msat: v }); }
+		}
+	}
+
 	pub fn channel_dump(&self, i: usize) -> Vec<String> {
 		let mut v: Vec<String> = self.nodes[i].node.list_channels().iter().map(|c| {
 			format!("chan={} out_cap={} in_cap={} limit={} min={} ready={} usable={} out_htlcs={} in_htlcs={}", self.chan_idx(&c.channel_id), c.outbound_capacity_msat, c.inbound_capacity_msat,
@@ -375,8 +428,12 @@ impl Net {
 
 pub fn fmt_obs(o: &Obs) -> String {
 	match o {
-		Obs::Msg { from, to, kind, chan, detail } => format!("msg {}>{} {} c{} {}", from, to, kind, *chan as isize, detail),
-		Obs::Update { node, chan, id, kinds, in_progress } => format!("upd n{} c{} id={} [{}] {}", node, *chan as isize, id, kinds.join(","), if *in_progress { "InProgress" } else { "Completed" }),
+		Obs::Msg { from, to, kind, chan, detail, .. } => format!("msg {}>{} {} c{} {}", from, to, kind, *chan as isize, detail),
+		Obs::Delivered { from, to, kind, chan, errors } => format!("dlv {}>{} {} c{} errors={}", from, to, kind, *chan as isize, errors),
+		Obs::Built { node, chan } => format!("built n{} c{}", node, chan),
+		Obs::Generated { node, chan, id } => format!("gen n{} c{} id={}", node, chan, id),
+		Obs::Balance { node, chan, value_to_self_msat } => format!("bal n{} c{} {}", node, chan, value_to_self_msat),
+		Obs::Update { node, chan, id, kinds, in_progress, .. } => format!("upd n{} c{} id={} [{}] {}", node, *chan as isize, id, kinds.join(","), if *in_progress { "InProgress" } else { "Completed" }),
 		Obs::Completed { node, chan, id } => format!("done n{} c{} id={}", node, chan, id),
 		Obs::Event { node, text } => format!("ev n{} {}", node, text),
 		Obs::Broadcast { node, txid, n_in, n_out } => format!("bcast n{} {} in={} out={}", node, &txid[..8], n_in, n_out),
